@@ -15,6 +15,9 @@ type writeLog struct {
 	heaps map[string]string // heap name -> value sort
 	globs map[*types.Var]bool
 	ghosts bool
+	refs  map[string][]*Term // heap name -> references written (as evaluated during the dry run)
+	whole map[string]bool    // heap name -> havocked as a whole
+	mark  int                // number of SMT declarations when the dry run started
 }
 
 func (c *FnCtx) execBlock(st *State, stmts []ast.Stmt) []Out {
@@ -188,9 +191,26 @@ func (c *FnCtx) defineVar(st *State, obj *types.Var, v *Term) {
 		r := c.allocRef(st, "box_"+obj.Name())
 		st.vars[obj] = r
 		c.storeCell(st, r, obj.Type(), v)
+		c.zeroGhostFields(st, r, obj.Type())
 		return
 	}
 	st.vars[obj] = v.withGo(obj.Type())
+}
+
+// zeroGhostFields: the ghost fields of a freshly allocated zero-valued external struct are zero.
+func (c *FnCtx) zeroGhostFields(st *State, r *Term, t types.Type) {
+	n := ownerNamed(t)
+	if n == nil || isRepoPkg(n.Obj().Pkg()) || n.Obj().Pkg() == nil {
+		return
+	}
+	prefix := n.Obj().Pkg().Path() + "." + n.Obj().Name() + ".$"
+	for key, ty := range c.eng.ghostFields {
+		if strings.HasPrefix(key, prefix) {
+			gt := c.resolveType(ty, &SExpr{Pos: "ghostfield " + key})
+			srt := c.ts.sortOf(gt)
+			c.heapWrite(st, "GH_"+sanitize(key), srt, r, c.zero(gt))
+		}
+	}
 }
 
 func (c *FnCtx) execAssign(st *State, x *ast.AssignStmt) {
@@ -502,7 +522,7 @@ func (c *FnCtx) execTypeSwitch(st *State, x *ast.TypeSwitchStmt) []Out {
 func (c *FnCtx) dryRun(st *State, f func(s *State)) *writeLog {
 	saveLog := c.log
 	saveObls := len(c.obls)
-	c.log = &writeLog{vars: map[*types.Var]bool{}, heaps: map[string]string{}, globs: map[*types.Var]bool{}}
+	c.log = &writeLog{vars: map[*types.Var]bool{}, heaps: map[string]string{}, globs: map[*types.Var]bool{}, refs: map[string][]*Term{}, whole: map[string]bool{}, mark: len(c.smt.decls)}
 	c.dry++
 	func() {
 		defer func() {
@@ -528,6 +548,12 @@ func (c *FnCtx) dryRun(st *State, f func(s *State)) *writeLog {
 		}
 		for k, v := range log.heaps {
 			saveLog.heaps[k] = v
+		}
+		for k, v := range log.refs {
+			saveLog.refs[k] = append(saveLog.refs[k], v...)
+		}
+		for k := range log.whole {
+			saveLog.whole[k] = true
 		}
 		for k := range log.globs {
 			saveLog.globs[k] = true
@@ -560,8 +586,50 @@ func (c *FnCtx) havocWrites(st *State, log *writeLog) {
 		hs = append(hs, h)
 	}
 	sort.Strings(hs)
+	// symbols that may change during the loop: names created by the dry run, and the current values of what it writes
+	variant := map[string]bool{}
+	for i := log.mark; i < len(c.smt.decls); i++ {
+		variant[c.smt.decls[i].Name] = true
+	}
+	for _, v := range vs {
+		if t, ok := st.vars[v]; ok {
+			symbolsOf(t.String(), variant)
+		}
+	}
 	for _, h := range hs {
-		c.heapHavoc(st, h, log.heaps[h])
+		if t, ok := st.heap[h]; ok {
+			variant[t.Op] = true
+		}
+	}
+	for _, h := range hs {
+		targeted := !log.whole[h] && len(log.refs[h]) > 0
+		if targeted {
+			for _, r := range log.refs[h] {
+				syms := map[string]bool{}
+				symbolsOf(r.String(), syms)
+				for sname := range syms {
+					if variant[sname] {
+						targeted = false
+					}
+				}
+			}
+		}
+		if !targeted {
+			c.heapHavoc(st, h, log.heaps[h])
+			continue
+		}
+		// only fixed locations are written by the loop: havoc exactly those
+		done := map[string]bool{}
+		saveLog := c.log
+		c.log = nil
+		for _, r := range log.refs[h] {
+			if done[r.String()] {
+				continue
+			}
+			done[r.String()] = true
+			c.heapWrite(st, h, log.heaps[h], r, c.smt.freshConst("lh", log.heaps[h]))
+		}
+		c.log = saveLog
 	}
 	for g := range log.globs {
 		name := "G:" + shortPkg(g.Pkg()) + "." + g.Name()
@@ -956,6 +1024,9 @@ func (c *FnCtx) verify() (err error) {
 	st := c.initialState()
 	if sig.Recv() != nil {
 		c.bindParam(st, sig.Recv())
+		if isPointer(sig.Recv().Type()) && (c.contract == nil || !c.contract.NilRecv) && sig.Recv().Name() != "" && sig.Recv().Name() != "_" {
+			st.pc = append(st.pc, mkNot(mkEq(c.env[sig.Recv().Name()], intLit(0))))
+		}
 	}
 	for i := 0; i < sig.Params().Len(); i++ {
 		c.bindParam(st, sig.Params().At(i))
@@ -1026,6 +1097,7 @@ func (c *FnCtx) checkPost(st *State, rets []*Term, site ast.Node) {
 		g := c.specEvalAt(st, en.Expr, env, c.pre, site)
 		c.oblige(st, "post", c.fi.Decl, fmt.Sprintf("%d", i+1), en.Text, g)
 	}
+	c.checkFrame(st, site)
 	if c.contract.Fresh && len(rets) > 0 {
 		c.oblige(st, "post", c.fi.Decl, "fresh", "result is freshly allocated", mkOr(mkEq(rets[0], intLit(0)), mkLt(c.pre.alloc, rets[0])))
 	}
